@@ -326,6 +326,53 @@ def m_option_unwrap_or(ctx):
     return ctx.fork([(tag == bv64(1), some), (tag == bv64(0), none)])
 
 
+def m_result_unwrap_or(ctx):
+    o, d = ctx.args
+    tag = _opt_tag(ctx, o, "Result")
+    tps = turbofish_params(ctx.callee)
+
+    def ok(c2):
+        return c2.ret(copy_node(payload(c2.eng, c2.args[0], "Ok", 0, tps[0] if tps else None)))
+
+    def err(c2):
+        return c2.ret(copy_node(c2.args[1]))
+
+    return ctx.fork([(tag == bv64(0), ok), (tag == bv64(1), err)])
+
+
+def m_int_try_from(ctx):
+    """<D as TryFrom<S>>::try_from(v) for primitive integers: Ok(v as D) iff v is representable in D, else Err(_)."""
+    eng = ctx.eng
+    mt = re.search(r"<([iu](?:8|16|32|64|128|size)) as TryFrom<([iu](?:8|16|32|64|128|size))>>::try_from", ctx.callee.replace("std::convert::", ""))
+    if not mt:
+        raise Unsupported("integer try_from without concrete types: %s" % ctx.callee)
+    dty, sty = mt.group(1), mt.group(2)
+    dk, sk = scalar_kind(dty), scalar_kind(sty)
+    dw, dsg, sw, ssg = dk[1], dk[2], sk[1], sk[2]
+    a = ctx.args[0]
+    if a.ty is None:
+        a.ty = sty
+    v = eng.scalar(a, sty)
+    # compare in a width that holds both ranges
+    W = max(dw, sw) + 1
+    ve = z3.SignExt(W - sw, v) if ssg else z3.ZeroExt(W - sw, v)
+    lo = z3.BitVecVal(-(1 << (dw - 1)) if dsg else 0, W)
+    hi = z3.BitVecVal(((1 << (dw - 1)) - 1) if dsg else ((1 << dw) - 1), W)
+    fits = z3.And(ve >= lo, ve <= hi)          # signed comparison in W bits (W exceeds both widths)
+    if dw <= sw:
+        conv = z3.Extract(dw - 1, 0, v)
+    else:
+        conv = z3.SignExt(dw - sw, v) if ssg else z3.ZeroExt(dw - sw, v)
+
+    def ok(c2):
+        return c2.ret(mk_enum(c2.eng, "Result", "Ok", [mk_scalar(conv, dty)], ty=c2.dest_ty))
+
+    def bad(c2):
+        return c2.ret(mk_enum(c2.eng, "Result", "Err", [mk_unit()], ty=c2.dest_ty))
+
+    return ctx.fork([(fits, ok), (z3.Not(fits), bad)])
+
+
 def m_option_cloned(ctx):
     """Option<&T>::cloned / copied for T: Copy-like (value copy of the pointee)."""
     o = ctx.args[0]
@@ -910,6 +957,7 @@ def install(eng):
     M["Result::unwrap"] = m_unwrap("Result", "Ok", "called `Result::unwrap()` on an `Err` value")
     M["Result::expect"] = m_unwrap("Result", "Ok", "expect")
     M["Option::unwrap_or"] = m_option_unwrap_or
+    M["Result::unwrap_or"] = m_result_unwrap_or
     M["Option::is_some"] = m_option_is("some")
     M["Option::is_none"] = m_option_is("none")
     M["Result::is_ok"] = m_result_is("ok")
@@ -948,5 +996,6 @@ def install(eng):
     R.append((re.compile(r"<(?:bool|char|[iu](?:8|16|32|64|128|size)|InputValue|OutputValue|ExpectedValue|BinOp"
                          r"|UnaryOp|TokenKind|OutputEntryIndex|InputEntry|OutputEntry|ExpectedEntry|Range) as Clone>::clone"),
               m_clone_copy))
+    R.append((re.compile(r"<[iu](?:8|16|32|64|128|size) as TryFrom>::try_from"), m_int_try_from))
     R.append((re.compile(r"<.* as Into>::into"), m_into))
     R.append((re.compile(r"<.* as From>::from"), m_into))
